@@ -1,6 +1,7 @@
 package main
 
 import (
+	"encoding/base64"
 	"path/filepath"
 	"encoding/json"
 	"fmt"
@@ -59,8 +60,8 @@ func c09Headers(inst *sh.Inst) []c09Hdr {
 	nbf := mk(jwt.SigningMethodHS256, jwt.StandardClaims{ExpiresAt: now.Add(2 * time.Hour).Unix(), NotBefore: now.Add(time.Hour).Unix(), Id: "u"}, key)
 	ownOK := mk(jwt.SigningMethodHS256, jwt.StandardClaims{ExpiresAt: now.Add(time.Hour).Unix(), Issuer: "simpleiot", Id: "u"}, key)
 	parts := strings.Split(good, ".")
-	tamperedPayload := parts[0] + "." + parts[1][:len(parts[1])-2] + "AA" + "." + parts[2]
-	tamperedSig := parts[0] + "." + parts[1] + "." + parts[2][:len(parts[2])-2] + "AA"
+	tamperedPayload := parts[0] + "." + c09FlipBit(parts[1]) + "." + parts[2]
+	tamperedSig := parts[0] + "." + parts[1] + "." + c09FlipBit(parts[2])
 	noneHdr := "eyJhbGciOiJub25lIiwidHlwIjoiSldUIn0" // {"alg":"none","typ":"JWT"}
 	// every combination of one certain defect (foreign key, tampered signature, expired) with the optional
 	// time claims iat / nbf absent, in the past or in the future: a second, "softer" validation error
@@ -95,7 +96,7 @@ func c09Headers(inst *sh.Inst) []c09Hdr {
 				tok := mk(jwt.SigningMethodHS256, cl, k)
 				if defect == "signature-tampered" {
 					ps := strings.Split(tok, ".")
-					tok = ps[0] + "." + ps[1] + "." + ps[2][:len(ps[2])-2] + "AA"
+					tok = ps[0] + "." + ps[1] + "." + c09FlipBit(ps[2])
 				}
 				combos = append(combos, c09Hdr{defect + "+iat-" + iat + "+nbf-" + nb, "Bearer " + tok, true, false})
 			}
@@ -140,6 +141,18 @@ func c09Headers(inst *sh.Inst) []c09Hdr {
 // c09InstanceKey reads the signing key the way an attacker could not: straight
 // from the database file (harness privilege), to craft tokens that differ from
 // an issued one in exactly one respect (algorithm, expiry, claims).
+// c09FlipBit changes one bit of the bytes a base64url segment stands for (replacing characters of the text can
+// leave the decoded bytes as they were: the last character carries unused bits, and the new characters may be
+// the old ones — that made a "tampered" token valid about once in a thousand tokens, §10)
+func c09FlipBit(seg string) string {
+	b, err := base64.RawURLEncoding.DecodeString(seg)
+	if err != nil || len(b) == 0 {
+		return seg + "A"
+	}
+	b[len(b)/2] ^= 0x01
+	return base64.RawURLEncoding.EncodeToString(b)
+}
+
 func c09InstanceKey(inst *sh.Inst) []byte {
 	k, err := sh.ReadJWTKey(inst.File)
 	if err != nil {
